@@ -269,6 +269,25 @@ static void seeding() {
       e1 = gen(w1, 3); e2 = gen(w1, 3); e3 = gen(w2, 3); out.evaluations += 2;
       if (e1 != e2) out.viol("seeding:same-seed-not-reproducible", J().s("seed", "{1,2,3}"));
       if (e1 == e3) out.viol("seeding:different-seeds-same-output", J().s("seed", "{1,2,3} vs {1,2,4}")); }
+    // every word of a multi-word seed matters: seeds of length 1..40 that differ in exactly one word (each position in turn, lowest
+    // and highest bit) give different keys and masks; seeds that differ only in length do too
+    { LweParams *P = new_LweParams(64, ldexp(1., -15), 0.25); LweKey *K = new_LweKey(P); LweSample *c = new_LweSample(P);
+      auto draw = [&](std::vector<uint32_t> &w) { tfhe_random_generator_setSeed(w.data(), (int32_t) w.size()); lweKeyGen(K); lweSymEncrypt(c, 1 << 29, ldexp(1., -15), K);
+          std::string o((const char *) K->key, 256); o.append((const char *) c->a, 256); return o; };
+      uint64_t pairs = 0;
+      for (int len: {1, 2, 3, 7, 8, 9, 12, 16, 17, 33, 40}) {
+          std::vector<uint32_t> base(len); for (auto &x: base) x = rng.u32();
+          std::string ref = draw(base);
+          for (int pos = 0; pos < len; pos++) for (uint32_t flip: {1u, 0x80000000u}) {
+              std::vector<uint32_t> v = base; v[pos] ^= flip; std::string o = draw(v); pairs++; out.evaluations++;
+              if (o == ref || memcmp(o.data(), ref.data(), 256) == 0) { out.viol("seeding:different-seeds-same-output", J().i("seed_words", len).i("differing_word", pos).u("flipped_bit", flip).s("note", "multi-word seeds differing in one word")); pos = len; break; }
+          }
+          std::vector<uint32_t> longer = base; longer.push_back(0); out.evaluations++;
+          if (draw(longer) == ref) out.viol("seeding:different-seeds-same-output", J().i("seed_words", len).s("note", "seed extended by a zero word"));
+          if (draw(base) != ref) out.viol("seeding:same-seed-not-reproducible", J().i("seed_words", len));
+      }
+      delete_LweSample(c); delete_LweKey(K); delete_LweParams(P);
+      out.cell("seeding:multi-word-seeds:every-word-matters", pairs); }
     // re-seeding must reset *all* sampler state: sessions of 1, 2, 3, ... encryptions (odd and even numbers of Gaussian
     // draws) replayed after a re-seed give identical ciphertexts, whatever was drawn before the re-seed
     { LweParams *P = new_LweParams(20, ldexp(1., -15), 0.25); LweKey *K = new_LweKey(P); LweSample *c = new_LweSample(P);
